@@ -87,6 +87,8 @@ type Epoch struct {
 	kind    epochKind
 	parents []epParent         // epMerge: conditions + states; epHavoc: single parent
 	keep    func(c *Comp) bool // epHavoc: components NOT havocked (looked up in parent); nil = havoc all
+	freshOnly func(c *Comp) bool // epHavoc: havocked components whose pre-existing objects are untouched
+	older   Term // allocation counter before the havoc (objects with rootof < older are "pre-existing")
 	memo    map[string]Term
 	alloc   Term // allocation counter at creation
 }
@@ -160,6 +162,7 @@ func newEnc(P *Program, db *SpecDB, r *Resolver) *Enc {
 		"(forall ((t Int) (p Int)) (! (and (not (= (mkiface t p) 0)) (= (dyntype (mkiface t p)) t) (= (ifacepl (mkiface t p)) p)) :pattern ((mkiface t p))))",
 		"(forall ((p Int)) (! (and (< (arrslice p) 0) (= (rtag (arrslice p)) 2) (= (rootof (arrslice p)) (rootof p))) :pattern ((arrslice p))))",
 		"(forall ((p Int)) (! (=> (> p 0) (= (rootof p) p)) :pattern ((rootof p))))",
+		"(forall ((p Int)) (! (=> (>= p 0) (= (rtag p) 0)) :pattern ((rtag p))))",
 	)
 	empty := e.strLit("")
 	e.asserts = append(e.asserts, fmt.Sprintf("(forall ((s Str)) (! (=> (= (strlen s) 0) (= s %s)) :pattern ((strlen s))))", empty.S))
@@ -772,12 +775,7 @@ func (e *Enc) initState() *State {
 // compTypingFact: quantified fact that every cell of a fresh component version is well typed.
 func (e *Enc) compTypingFact(c *Comp, v Term, alloc Term) {
 	if c.Scalar || c.ValType == nil {
-		if strings.HasSuffix(c.Name, ".len") || strings.HasSuffix(c.Name, ".cap") || strings.HasSuffix(c.Name, ".off") {
-			if strings.HasPrefix(c.Name, "MV ") {
-				return
-			}
-			e.fact(Term{fmt.Sprintf("(forall ((p Int)) (! (and (<= 0 (select %s p)) (<= (select %s p) %s)) :pattern ((select %s p))))", v.S, v.S, maxLen, v.S), SBool})
-		}
+		// slice header shapes are asserted as ground facts at every load (shapeFacts)
 		if strings.HasSuffix(c.Name, ".base") && !strings.HasPrefix(c.Name, "MV ") {
 			e.fact(Term{fmt.Sprintf("(forall ((p Int)) (! (< (select %s p) %s) :pattern ((select %s p))))", v.S, alloc.S, v.S), SBool})
 		}
@@ -785,6 +783,9 @@ func (e *Enc) compTypingFact(c *Comp, v Term, alloc Term) {
 	}
 	if strings.HasPrefix(c.Name, "MV ") {
 		return
+	}
+	if isInteger(c.ValType) {
+		return // integer ranges are asserted as ground facts at every load (shapeFactsT)
 	}
 	f := e.typingFact(c.ValType, Term{"(select " + v.S + " p)", SInt}, alloc)
 	if f.S == "true" {
@@ -808,6 +809,12 @@ func (e *Enc) epochLookup(ep *Epoch, c *Comp) Term {
 		} else {
 			t = e.declareConst(fmt.Sprintf("|%s@h%d|", c.Name, ep.id), c.Sort)
 			e.compTypingFact(c, t, ep.alloc)
+			if ep.freshOnly != nil && ep.freshOnly(c) && !c.Scalar && isArr(c.Sort) {
+				if is, _ := arrParts(c.Sort); is == SInt {
+					old := e.lookup(ep.parents[0].st, c)
+					e.fact(Term{fmt.Sprintf("(forall ((r Int)) (! (=> (< (rootof r) %s) (= (select %s r) (select %s r))) :pattern ((select %s r))))", ep.older.S, t.S, old.S, t.S), SBool})
+				}
+			}
 		}
 	case epMerge:
 		// ite chain over parents
@@ -847,10 +854,14 @@ func (e *Enc) update(st *State, c *Comp, t Term) {
 
 // havocState returns a new state in which every component for which keep returns false is fresh.
 func (e *Enc) havocState(st *State, keep func(c *Comp) bool) *State {
+	return e.havocState2(st, keep, nil)
+}
+
+func (e *Enc) havocState2(st *State, keep func(c *Comp) bool, freshOnly func(c *Comp) bool) *State {
 	e.epochCtr++
 	na := e.freshConst("alloc", SInt)
 	e.fact(tLe(st.Alloc, na))
-	ep := &Epoch{id: e.epochCtr, kind: epHavoc, parents: []epParent{{tTrue, st}}, keep: keep, memo: map[string]Term{}, alloc: na}
+	ep := &Epoch{id: e.epochCtr, kind: epHavoc, parents: []epParent{{tTrue, st}}, keep: keep, freshOnly: freshOnly, older: st.Alloc, memo: map[string]Term{}, alloc: na}
 	return &State{H: map[string]Term{}, Base: ep, Alloc: na}
 }
 
@@ -918,12 +929,25 @@ func (e *Enc) loadAt(st *State, ref Term, t types.Type) Val {
 		ts = append(ts, tSelect(e.lookup(st, c), ref))
 	}
 	v, _ := e.unflatten(t, ts)
-	return e.shapeFacts(v)
+	return e.shapeFactsT(v, t)
 }
 
 // shapeFacts states what every slice header read from memory satisfies (0 <= len <= cap ...).
 func (e *Enc) shapeFacts(v Val) Val {
+	return e.shapeFactsT(v, nil)
+}
+
+func (e *Enc) shapeFactsT(v Val, t types.Type) Val {
+	if tv, ok := v.(Term); ok && t != nil && tv.Sort == SInt && isInteger(t) && !strings.Contains(tv.S, "|q.") {
+		// ground instance of the component typing fact (keeps quantifier-free models well typed)
+		n := e.define("ld", tv)
+		e.fact(e.typingFact(t, n, Term{}))
+		return n
+	}
 	if sv, ok := v.(SliceV); ok {
+		if strings.Contains(sv.Len.S, "|q.") || strings.Contains(sv.Base.S, "|q.") {
+			return v
+		}
 		named := SliceV{e.define("ld.base", sv.Base), e.define("ld.off", sv.Off), e.define("ld.len", sv.Len), e.define("ld.cap", sv.Cap)}
 		e.fact(e.sliceFact(named, Term{}))
 		return named
@@ -942,7 +966,7 @@ func (e *Enc) loadField(st *State, ref Term, S types.Type, i int) Val {
 		ts = append(ts, tSelect(e.lookup(st, c), ref))
 	}
 	v, _ := e.unflatten(ft, ts)
-	return e.shapeFacts(v)
+	return e.shapeFactsT(v, ft)
 }
 
 func (e *Enc) storeAt(st *State, ref Term, t types.Type, v Val) {
